@@ -368,6 +368,27 @@ func execOp(s *Sexp) string {
 			rv, rn := plenccore.ReadVarUint(cat(a, trail))
 			return fmt.Sprintf("%s %d %d %d", hx(a), plenccore.SizeVarUint(v), rv, rn)
 		})
+	case "varucap":
+		// (varucap V PRELEN SPARE): append into a buffer that already holds PRELEN bytes and has SPARE bytes of spare capacity
+		v, ok := atoiU(arg(1))
+		pre, ok2 := atoiU(arg(2))
+		spare, ok3 := atoiU(arg(3))
+		if !ok || !ok2 || !ok3 || pre > 64 || spare > 64 {
+			return "bad-op"
+		}
+		return guard(func() string {
+			mk := func() []byte {
+				b := make([]byte, pre, pre+spare)
+				for i := range b {
+					b[i] = byte(0xA0 + i)
+				}
+				return b
+			}
+			a := plenccore.AppendVarUint(mk(), v)
+			b := plenccore.AppendVarInt(mk(), int64(v))
+			c := plenccore.AppendTag(mk(), plenccore.WireType(v&7), int(v>>3&(1<<60-1)))
+			return hx(a) + " " + hx(b) + " " + hx(c)
+		})
 	case "vari":
 		v, err1 := strconv.ParseInt(arg(1), 10, 64)
 		trail, err := unhx(arg(2))
